@@ -485,7 +485,7 @@ class ProbeEngine(object):
         w.ops[-1] += " -> ok"
         w.ops_completed += 1
 
-    def op_status(self):
+    def op_status(self, force_big=False):
         w, c, m, t = self.w, self.c, self.m, self.t
         xy = self.pick_chip()
         ch = m.chips[xy]
@@ -494,6 +494,12 @@ class ProbeEngine(object):
         if which and t.draw(2) and self.iobuf_cores:
             # prefer a core that printed something
             xy, p = self.iobuf_cores[t.draw(len(self.iobuf_cores))]
+            ch = m.chips[xy]
+        if force_big:
+            if not self.iobuf_cores:
+                return
+            which = 1 + t.draw(2)
+            xy, p = self.iobuf_cores[0]
             ch = m.chips[xy]
         cr = ch.cores[p]
         name = ["get_processor_status", "get_iobuf", "get_iobuf_bytes"][which]
@@ -649,7 +655,7 @@ class ProbeEngine(object):
                       3 * m.iobuf_size + 7][t.draw(4)]
                 ln = min(ln, 5000)
                 if m.iobuf_size == 16384 and not self.huge_console and \
-                        t.draw(60 if self.tier == "thorough" else 1500) == 0:
+                        t.draw(40 if self.tier == "thorough" else 1200) == 0:
                     # a console of more than 8 MiB (hundreds of blocks)
                     ln = (8 << 20) + 16384 * (1 + t.draw(40)) + t.draw(999)
                     self.huge_console = True
@@ -706,6 +712,11 @@ class ProbeEngine(object):
         self.iobuf_cores = [(xy, p) for xy in self.good_chips
                             for p, cr in enumerate(m.chips[xy].cores)
                             if cr.iobuf]
+        big_ = [(xy, p) for (xy, p) in self.iobuf_cores
+                if len(m.chips[xy].cores[p].iobuf) > (8 << 20)]
+        if big_:
+            # (worth reading when it is there)
+            self.iobuf_cores = big_ * 3 + self.iobuf_cores
 
     def run(self):
         t, w = self.t, self.w
@@ -737,6 +748,9 @@ class ProbeEngine(object):
             self.op_system_info(heal=True)
             if t.draw(3) == 0:
                 self.op_get_machine()
+            if self.huge_console:
+                # the long console is read over the quiet network
+                self.op_status(force_big=True)
         finally:
             c.close()
         return {"machine": "%dx%d" % (m.width, m.height)}
